@@ -16,7 +16,7 @@ from vplib.common import VERIF
 
 MANIFEST = dict(
     category="proof",
-    text="partial. Coq theorems on the executable model of check_type_relation (both modes, mirrors /repo after the fix: commits for F7/F12) and of the registry: compat_sound_partial (is_compatible => containment of values, on the cycle-free fragment: no Cycle/Variable reachable, unnamed partials, for every model variant that retracts failed assumptions), compat_refl (outright), overlap_complete_partial (a `false` of types_overlap proves disjointness, first-order cycle-free fragment), registry monotonicity (register_type/register_tuple only append; meaning of existing ids preserved for first-order values); refutation witnesses (vm_compute) for F7/F12 as found and for the open findings F23, F25 and the partial-name defect. NOT proved (validated only): compat_trans, compat_sound/overlap_complete on the recursive fragment, intersect_keeps/complement_keeps. Every run ties the model to the code by differential execution on generated type graphs (returned ids, booleans, full registry dumps after intersect/complement) and judges the REAL functions' answers against the value semantics of Sem.v by exhaustive value enumeration to depth 3 (soundness, overlap completeness, intersect/complement keep values, reflexivity/transitivity).",
+    text="partial. Coq theorems on the executable model of check_type_relation (both modes, mirrors /repo with the fix: commits for F7, F12, F25p, F26, F29, F55, F56) and of the registry: compat_sound_partial (is_compatible => containment of values, on the cycle-free fragment: no Cycle/Variable reachable, for every model variant that retracts failed assumptions), compat_refl (outright), compat_trans_partial (is_compatible is transitive on the cycle-free fragment: check_rel is shown to compute exactly a reference relation, which is transitive), overlap_complete_partial (a `false` of types_overlap proves disjointness, first-order cycle-free fragment), registry monotonicity (register_type/register_tuple only append; meaning of existing ids preserved for first-order values); refutation witnesses (vm_compute) for the findings as found (F7, F12, F25p, F29) with the repaired answers pinned, and for the open findings F23, F25. NOT proved (validated only): compat_sound / compat_trans / overlap_complete on the recursive fragment, intersect_keeps / complement_keeps (oracle only). Every run ties the model to the code by differential execution on generated type graphs (returned ids, booleans, full registry dumps after intersect/complement; targeted templates for shared components under same-name tuple variants and for partials against recursive unions) and judges the REAL functions' answers against the value semantics of Sem.v by exhaustive value enumeration to depth 3 (soundness, overlap completeness, intersect/complement keep values, reflexivity/transitivity).",
     design_ref="§5 C09",
     note="Trusted: Coq kernel, extraction, OCaml driver, Rust harness, generator. The oracle's enumeration is over a small atom universe (one int, one bin, one ref; registered tuple shapes; registered closed callable/process types as function/process values); a dangling Cycle in a RESULT of narrowing is read as `any`, as the code base reads it. Known findings F23-F26 are matched by structural signature only; a failure in the cycle-free first-order fragment is always a violation.",
     technique="Coq proof on an executable model + model/code correspondence + semantic oracle by bounded exhaustive enumeration",
